@@ -137,6 +137,14 @@ func genC14Reregister(t *rapid.T) *Bundle {
 		}
 	}
 	ops = append(ops, casefmt.Op{Doc: 0, Vars: -1, Register: name, RegisterImmediate: true})
+	// registered again, any number of times (a package initialised twice, an application overriding a
+	// function): as long as the last registration is an immediate one the function is immediate
+	for i := 0; i < rapid.IntRange(0, 3).Draw(t, "registered_again"); i++ {
+		if rapid.IntRange(0, 3).Draw(t, "again_plain") == 0 {
+			ops = append(ops, casefmt.Op{Doc: 0, Vars: -1, Register: name})
+		}
+		ops = append(ops, casefmt.Op{Doc: 0, Vars: -1, Register: name, RegisterImmediate: true})
+	}
 	alias := ""
 	if qual == "ASYNC" {
 		alias = " AS y"
